@@ -1,4 +1,4 @@
-import Taskpool.Inv.Want2
+import Taskpool.Inv.Want
 /-! **Whoever has something to do is flagged — the walk.**  `Pool.WantOK` (`Inv/Want2.lean`) is preserved by every step of
 the pool machine.  Part 1 (this file): the waiter-queue list facts, the generic transfer lemmas, and every function that
 can be called at any time (the synchronous API, user-code hooks, gathers, background calls) — for every exempt set `E`.
@@ -789,7 +789,7 @@ theorem wk_cancelGroupMetas {p : Pool} (h : WK E p) (g : String) : WK E (p.cance
   simp only
   have h1 := wk_foldl (fun q m => q.metaCancel m) (fun q m hq => wk_metaCancel hq m)
     (indicesWhere p.reqs fun r => r.inRunning && r.group == g) p h
-  refine wk_mapReqs h1 (fun (r : Req) => if r.inRunning && r.group == g then { r with inRunning := false, inCancelled := true } else r)
+  refine wk_mapReqs h1 (fun (r : Req) => if r.inRunning && r.group == g then { r with inRunning := false, inCancelled := true, everCancelled := true } else r)
     rfl rfl rfl ?_
   intro r; split <;> exact ⟨rfl, rfl, rfl, rfl⟩
 
